@@ -95,6 +95,16 @@ func TestRegressChunkPutFailure(t *testing.T) {
 }
 
 // An upload after the index that finds an orphaned blob in place does not refresh its update time
+func TestRegressReuseOfOrphanCRCStore(t *testing.T) {
+	// the same on stores that take and report checksums (GCS does): a matching checksum is no reason to leave the
+	// update time of a re-used blob alone
+	pinned(t, "", "", caseT{
+		Shape: purgex.Shape{Repos: []int{1}, Leaves: []uint32{1024}, CRC: true}, Chunk: 4, Parallel: 2,
+		Pre:  []purgex.Op{up(0, file("a", 0, 0, 1)), up(0, file("c", 1)), {Kind: purgex.OpDelBundle, Repo: 0, Pick: 0}},
+		Post: []purgex.Op{up(0, file("z", 0, 0, 1))},
+	})
+}
+
 func TestRegressReuseOfOrphan(t *testing.T) {
 	pinned(t, KnownDedupNoTouch, "an upload made after the index was built that re-uses an orphaned blob (dedup hit) leaves its update time unchanged; delete-unused deletes it and the new bundle is broken", caseT{
 		Shape: oneRepo, Chunk: 4, Parallel: 2,
